@@ -76,11 +76,12 @@ class Normaliser:
                         counts[x.id] = counts.get(x.id, 0) + 1
             if isinstance(n, (ast.Assign, ast.AnnAssign)) and getattr(n, 'value', None) is not None:
                 t = n.targets[0] if isinstance(n, ast.Assign) else n.target
-                if isinstance(t, ast.Name) and self._pure_chain(n.value):
+                if isinstance(t, ast.Name) and (self._pure_chain(n.value) or self._predicate(n.value)):
                     vals[t.id] = n.value
         args = fn_node.args
         params = {a.arg for a in args.posonlyargs + args.args + args.kwonlyargs}
         self.alias = {k: v for k, v in vals.items() if counts.get(k) == 1 and k not in params}
+        self.helpers = {}        # name -> expression returned by a private single-return predicate of the class
 
     @staticmethod
     def _pure_chain(e):
@@ -88,12 +89,47 @@ class Normaliser:
             e = e.value
         return isinstance(e, ast.Name) and e.id == 'self'
 
-    def text(self, e):
-        if not self.alias:
-            return ast.unparse(e)
+    PRED = {'is_master', 'is_stable', 'is_checking', 'is_inactive', 'is_running', 'has_active_state',
+            'has_running_processes', 'in_progress', 'stopped', 'running', 'running_on', 'conflicting', 'crashed',
+            'disabled', 'disabled_on', 'check_master', 'never_started', 'has_crashed'}
+
+    @classmethod
+    def _predicate(cls, e):
+        """a boolean-valued expression hoisted into a local (`busy = a.in_progress() or b.in_progress()`)."""
+        if isinstance(e, (ast.Compare, ast.BoolOp)):
+            return True
+        if isinstance(e, ast.UnaryOp) and isinstance(e.op, ast.Not):
+            return True
+        if isinstance(e, ast.Call) and isinstance(e.func, ast.Attribute) and e.func.attr in cls.PRED:
+            return True
+        return False
+
+    def inline(self, e, depth=0):
+        """`self._helper()` / `self._helper` -> the expression the private helper returns (extract-condition refactoring)."""
+        if not self.helpers or depth > 2:
+            return e
+        nm = None
+        if isinstance(e, ast.Call) and not e.args and not e.keywords and isinstance(e.func, ast.Attribute) and \
+                isinstance(e.func.value, ast.Name) and e.func.value.id == 'self':
+            nm = e.func.attr
+        elif isinstance(e, ast.Attribute) and isinstance(e.value, ast.Name) and e.value.id == 'self':
+            nm = e.attr
+        if nm in self.helpers:
+            import copy
+            out = copy.deepcopy(self.helpers[nm])
+            for x in ast.walk(out):
+                if hasattr(e, 'lineno'):
+                    ast.copy_location(x, e)
+            return self.inline(out, depth + 1)
+        return e
+
+    def subst(self, e, depth=0):
+        """e with alias locals replaced by their defining expression (AST level, original untouched)."""
+        if not self.alias or depth > 3:
+            return e
         names = {x.id for x in ast.walk(e) if isinstance(x, ast.Name)}
         if not (names & set(self.alias)):
-            return ast.unparse(e)
+            return e
         import copy
         e2 = copy.deepcopy(e)
         alias = self.alias
@@ -101,16 +137,111 @@ class Normaliser:
         class T(ast.NodeTransformer):
             def visit_Name(self, n):
                 if n.id in alias and isinstance(n.ctx, ast.Load):
-                    return copy.deepcopy(alias[n.id])
+                    return ast.copy_location(copy.deepcopy(alias[n.id]), n)
                 return n
         e2 = T().visit(ast.Expression(body=e2)).body
-        return ast.unparse(e2)
+        ast.fix_missing_locations(e2)
+        for x in ast.walk(e2):
+            if not hasattr(x, 'lineno') and hasattr(e, 'lineno'):
+                ast.copy_location(x, e)
+        return self.subst(e2, depth + 1)
+
+    def text(self, e):
+        return ast.unparse(self.subst(e))
+
+
+def _constant_like(e):
+    if isinstance(e, ast.Constant):
+        return True
+    if isinstance(e, ast.Attribute) and isinstance(e.value, ast.Name) and e.value.id[:1].isupper() and \
+            e.attr.isupper():
+        return True                     # Enum.MEMBER
+    if isinstance(e, (ast.List, ast.Tuple, ast.Set)) and all(_constant_like(x) for x in e.elts):
+        return True
+    return False
+
+
+_MIRROR = {ast.Lt: ast.Gt, ast.Gt: ast.Lt, ast.LtE: ast.GtE, ast.GtE: ast.LtE, ast.Eq: ast.Eq, ast.NotEq: ast.NotEq}
+
+
+def canonical(test):
+    """(expression, flip) - an expression equivalent to `test` (or to `not test` when flip) in a canonical spelling, so
+    that equivalent ways of writing a condition give the same fact text. Designed as a fixpoint on the spellings the
+    repository uses; only variants are rewritten:
+      bool(x) -> x ; len(x) > 0 | >= 1 | != 0 -> x ; len(x) == 0 | < 1 -> not x ;
+      CONST == x -> x == CONST (and mirrored <, <=, >, >=) ; x in (A, B) | {A, B} -> x in [A, B] ; x in [A] -> x == A ;
+      x == A or x == B -> x in [A, B] ; not a or not b -> not (a and b)."""
+    e = test
+    if isinstance(e, ast.Call) and isinstance(e.func, ast.Name) and e.func.id == 'bool' and len(e.args) == 1 \
+            and not e.keywords:
+        return canonical(e.args[0])
+    if isinstance(e, ast.Compare) and len(e.ops) == 1:
+        l, op, r = e.left, e.ops[0], e.comparators[0]
+        if _constant_like(l) and not _constant_like(r) and type(op) in _MIRROR:
+            l, r, op = r, l, _MIRROR[type(op)]()
+            e = ast.Compare(left=l, ops=[op], comparators=[r])
+        # len(x) against 0 / 1
+        if isinstance(l, ast.Call) and isinstance(l.func, ast.Name) and l.func.id == 'len' and len(l.args) == 1 and \
+                isinstance(r, ast.Constant) and r.value in (0, 1):
+            k = (type(op), r.value)
+            if k in ((ast.Gt, 0), (ast.GtE, 1), (ast.NotEq, 0)):
+                return l.args[0], False
+            if k in ((ast.Eq, 0), (ast.Lt, 1), (ast.LtE, 0)):
+                return l.args[0], True
+        if isinstance(op, (ast.In, ast.NotIn)) and isinstance(r, (ast.Tuple, ast.Set)) and _constant_like(r):
+            r = ast.List(elts=list(r.elts), ctx=ast.Load())
+            e = ast.Compare(left=l, ops=[op], comparators=[r])
+        if isinstance(op, (ast.In, ast.NotIn)) and isinstance(r, ast.List) and len(r.elts) == 1 and _constant_like(r):
+            op = ast.Eq() if isinstance(op, ast.In) else ast.NotEq()
+            r = r.elts[0]
+            e = ast.Compare(left=l, ops=[op], comparators=[r])
+        # negative operators -> positive operator, flipped polarity (one spelling per fact)
+        pos = {ast.NotEq: ast.Eq, ast.NotIn: ast.In, ast.IsNot: ast.Is}.get(type(op))
+        if pos:
+            return ast.Compare(left=l, ops=[pos()], comparators=[r]), True
+        return e, False
+    if isinstance(e, ast.BoolOp):
+        vals, changed = [], False
+        for v in e.values:
+            inner = v.operand if isinstance(v, ast.UnaryOp) and isinstance(v.op, ast.Not) else v
+            neg = inner is not v
+            c, f = canonical(inner)
+            if c is not inner or f:
+                changed = True
+            if f != neg:
+                c = ast.UnaryOp(op=ast.Not(), operand=c)
+            vals.append(c)
+        if isinstance(e.op, ast.Or):
+            # x == A or x == B -> x in [A, B]
+            if all(isinstance(v, ast.Compare) and len(v.ops) == 1 and isinstance(v.ops[0], ast.Eq) and
+                   _constant_like(v.comparators[0]) for v in vals) and len({ast.unparse(v.left) for v in vals}) == 1:
+                return ast.Compare(left=vals[0].left, ops=[ast.In()],
+                                   comparators=[ast.List(elts=[v.comparators[0] for v in vals], ctx=ast.Load())]), False
+            # not a or not b -> not (a and b)
+            if all(isinstance(v, ast.UnaryOp) and isinstance(v.op, ast.Not) for v in vals):
+                return ast.BoolOp(op=ast.And(), values=[v.operand for v in vals]), True
+        if changed:
+            return ast.BoolOp(op=e.op, values=vals), False
+    return e, False
 
 
 def atoms(test, pol, norm=None):
     """atomic facts implied by `test` evaluating to `pol`."""
     if isinstance(test, ast.UnaryOp) and isinstance(test.op, ast.Not):
         return atoms(test.operand, not pol, norm)
+    if norm is not None:
+        test = norm.inline(norm.subst(test))
+        if isinstance(test, ast.UnaryOp) and isinstance(test.op, ast.Not):
+            return atoms(test.operand, not pol, norm)
+    ctest, flip = canonical(test)
+    if flip or ctest is not test:
+        if flip:
+            pol = not pol
+        orig = test
+        test = ast.copy_location(ctest, orig) if hasattr(orig, 'lineno') else ctest
+        ast.fix_missing_locations(test)
+        if isinstance(test, ast.UnaryOp) and isinstance(test.op, ast.Not):
+            return atoms(test.operand, not pol, norm)
     if isinstance(test, ast.BoolOp) and ((isinstance(test.op, ast.And) and pol) or
                                          (isinstance(test.op, ast.Or) and not pol)):
         return [a for v in test.values for a in atoms(v, pol, norm)]
@@ -118,24 +249,16 @@ def atoms(test, pol, norm=None):
         return atoms(test.value, pol, norm) + [Fact(test.target.id, pol, test.target)]
     txt = norm.text(test) if norm else ast.unparse(test)
     out = [Fact(txt, pol, test)]
-    # canonical forms: `x is None` / `x is not None` / `x == K` / `x != K` / `a not in b`
-    if isinstance(test, ast.Compare) and len(test.ops) == 1:
-        op = test.ops[0]
-        l = norm.text(test.left) if norm else ast.unparse(test.left)
-        r = norm.text(test.comparators[0]) if norm else ast.unparse(test.comparators[0])
-        inv = {ast.IsNot: 'is', ast.NotEq: '==', ast.NotIn: 'in'}
-        for k, pos in inv.items():
-            if isinstance(op, k):
-                out.append(Fact('%s %s %s' % (l, pos, r), not pol, test))
     return out
 
 
 class FactMap:
     """facts and enclosing exception handlers for every node of a function body."""
 
-    def __init__(self, fn_node):
+    def __init__(self, fn_node, helpers=None):
         self.fn = fn_node
         self.norm = Normaliser(fn_node)
+        self.norm.helpers = helpers or {}
         self.facts = {}
         self.handlers = {}      # id(node) -> tuple of tuples of caught exception names (innermost last)
         self.stmt_of = {}       # id(expr node) -> enclosing statement
@@ -250,12 +373,40 @@ def handler_names(h):
 
 
 _FM = {}
+PROGRAM = None          # set by the driver: lets the fact maps inline private helper predicates of the unit's class
+
+
+def _helper_predicates(unit):
+    out = {}
+    if PROGRAM is None or unit.cls is None:
+        return out
+    for k in PROGRAM.mro(unit.cls):
+        for nm, u in list(k.methods.items()) + list(k.props.items()):
+            if not nm.startswith('_') or nm.startswith('__') or nm in out:
+                continue
+            a = u.node.args
+            if len(a.args) != 1 or a.vararg or a.kwarg or a.kwonlyargs:
+                continue
+            body = [st for st in u.node.body
+                    if not (isinstance(st, ast.Expr) and isinstance(st.value, ast.Constant))
+                    and not (isinstance(st, ast.Expr) and isinstance(st.value, ast.Call)
+                             and 'logger' in ast.unparse(st.value.func).split('.'))]
+            if len(body) == 1 and isinstance(body[0], ast.Return) and body[0].value is not None and \
+                    isinstance(body[0].value, (ast.Compare, ast.BoolOp, ast.UnaryOp, ast.Call, ast.Attribute)):
+                v = body[0].value
+                if isinstance(v, ast.Attribute) and not (isinstance(v.value, ast.Name)):
+                    # property chains such as `return self.supvisors.logger` are shortcuts, not predicates
+                    continue
+                if isinstance(v, ast.Call) and not isinstance(v.func, ast.Attribute):
+                    continue
+                out[nm] = v
+    return out
 
 
 def factmap(unit):
     fm = _FM.get(id(unit.node))
     if fm is None:
-        fm = FactMap(unit.node)
+        fm = FactMap(unit.node, _helper_predicates(unit))
         _FM[id(unit.node)] = fm
     return fm
 
